@@ -306,6 +306,29 @@ def check_mcmc(r, payload, tag, model, reads, counts, fixed_allele, n_alleles, s
         r.violation(kind + "-template", "trace columns: got step0 %r, expected %r (fixed alleles %r) (%s)" % (G[0].tolist(), want[0].tolist(), fixed_allele, tag), payload)
     if not np.array_equal(L, np.full(steps, -1.25)):
         r.violation(kind + "-llk", "llk trace not passed through (%s)" % tag, payload)
+    if tag.startswith("screen"):
+        # the public entry point fit() must hand the same read set to the same screen (whatever the number of distinct reads)
+        import mchap.assemble.mcmc as mc
+
+        seen2 = {}
+
+        def fake2(**kw):
+            seen2["n_alleles"] = np.asarray(kw["n_alleles"]).tolist()
+            seen2["reads"] = kw["reads"].copy()
+            seen2["counts"] = None if kw["read_counts"] is None else np.asarray(kw["read_counts"]).tolist()
+            ploidy_, n_het = kw["genotype"].shape
+            return np.zeros((1, kw["steps"], ploidy_, n_het), np.int8), np.full((1, kw["steps"]), -1.25)
+
+        try:
+            with patched((mc, "_denovo_assembler", fake2)):
+                model.fit(reads, read_counts=counts)
+        except Exception as e:  # noqa
+            r.violation(kind + "-fit-exception|%s" % type(e).__name__, "%s: %s (%s)" % (type(e).__name__, e, tag), payload)
+            return
+        if seen2.get("n_alleles") != seen.get("n_alleles") or not np.array_equal(np.nan_to_num(seen2["reads"], nan=-1), np.nan_to_num(seen["reads"], nan=-1)) \
+                or seen2.get("counts") != seen.get("counts"):
+            r.violation(kind + "-fit-differs", "fit() sampled SNVs with n_alleles %r on %d read row(s), _mcmc on the same data %r on %d row(s) (%s)" % (
+                seen2.get("n_alleles"), len(seen2["reads"]), seen.get("n_alleles"), len(seen["reads"]), tag), payload)
 
 
 def job_fixed(job):
